@@ -16,6 +16,10 @@ CHECKS = {
             'Bounded symbolic verification: the real LegacyBuilder.fly (context, starting mass, climb/cruise/descent), Container (growable buffers, make_point, append) and Trajectory (set_phase, append, interpolate_time) run on a symbolic mission against a nondeterministic performance model (any answers within the documented contract, or an out-of-envelope refusal at any call); per explored path z3 decides for all inputs: mass minus fuel constant, masses/time/distance monotone, first point carries starting mass and fuel, altitude schedule (start/end levels, monotone per phase, constant cruise, never above cruise level/ceiling), phase hand-over, every position is the ground track\'s answer for exactly the recorded distance, finiteness of the phase arithmetic, resampling at own time points and at a symbolic intermediate time; rejected missions raise documented errors carrying the original reason. Buffer capacities are set small so growth boundaries fall inside the bound both aligned and mis-aligned with phase ends. Counterexamples replay with real numpy/pyproj and then through the public API on the shipped model.',
             '2-3 (thorough up to 4) points per phase; quick tier uses a recording stand-in for GroundTrack (the real class is C15, and runs here in the thorough tier); products of two symbols abstracted by sign axioms and refined on sat; no weather, no mass iteration',
             'proxy symbolic execution of the real builder/container code + z3 (LRA abstraction refined in QF_NRA)', 'DESIGN.md#c02'),
+    'C06': ('other',
+            'Bounded symbolic verification plus a floating-point kernel: one evaluate() of the real LegacyPerformanceModel (evaluate, _evaluate_checked, evaluate_impl, PerformanceTable.interpolate, Interpolator.__call__) with every table value, the altitude and the mass symbolic over a reference model of scipy interpn; z3 decides that the result is the piecewise (bi)linear interpolation of exactly the selected phase table at (altitude*METERS_TO_FL, mass), depends only on altitude, mass and phase, that states outside the phase envelope are refused and none inside is, and that min/max mean the extreme table masses; the interpolant is exact at nodes and bounded by corner values (NRA). QF_FP (z3, cvc5 cross-check) over all integer flight levels 0..600 decides that a tabulated level expressed in metres with the library\'s own factors stays within the edge tolerance the implementation applies. build_performance_table (compiled from the current source) reproduces every symbolic PTF row exactly once.',
+            'grid coordinates concrete; pandas assembly code (dense-grid refusal at load, subset, Interpolator.__init__) and PTF text parsing are not decided by this technique (declared in DESIGN.md); interpn replaced by a reference model validated against scipy each run',
+            'proxy symbolic execution + z3 (LRA/NRA) and QF_FP bit-precise query', 'DESIGN.md#c06'),
     'C11': ('other',
             'Bounded symbolic verification over configurations: the 12 documented options are solver variables read through concretising forks, the real compute_emissions runs for every feasible option combination on symbolic data; every path must return (then switched-off species are proved absent/zero in trajectory and LTO parts) or raise a refusal naming the offending option value; any other exception is a counterexample configuration, replayed through the real Config.load + compute_emissions.',
             'same engine and stubs as C01; classification of an exception as a named refusal is by message text',
